@@ -97,6 +97,32 @@ def run(tier, seed):
         if diffs:
             v.violation("real lookup %s differs from the table the lookup machine resolves (Sg%d/%s) in %s" %
                         (desc, x["no"], x["setting"], diffs), {"lookup": desc, "got": got, "want": want})
+            continue
+        # what a lookup hands out is the caller's: overwrite it in place, look the group up again (by the same request), compare again
+        if replayed % 3 == 0:
+            try:
+                for name_ in ("rot", "trans", "syscond"):
+                    obj = getattr(g, name_)
+                    if isinstance(obj, np.ndarray):
+                        obj *= 0
+                        obj += 7
+                    else:
+                        first = obj[0]
+                        while isinstance(first, list) and first and isinstance(first[0], list):
+                            first = first[0]
+                        if isinstance(first, list):
+                            first[0] = 7
+                        else:
+                            obj[0] = 7
+                g2 = sg.sg(**kw)
+                rot2 = np.array(g2.rot)
+                t2 = np.rint(np.array(g2.trans, dtype=float) * 24).astype(int) % 24
+                if rot2.shape != (t["nsymop"], 3, 3) or not np.array_equal(rot2, np.array(t["rot"])) or \
+                        not np.array_equal(t2, np.array(t["trans"])) or [int(q) for q in g2.syscond] != t["syscond"]:
+                    v.violation("lookup %s: after the caller overwrote the arrays of an earlier result, the same lookup returns a different "
+                                "table (results share storage)" % desc, {"lookup": desc})
+            except Exception as ex:
+                v.violation("lookup %s: repeating the lookup after modifying the first result raised %r" % (desc, ex), {"lookup": desc})
     cov = {"states": r.distinct, "transitions": r.generated, "traces_validated_against_impl": replayed,
            "exhaustive": True, "tables": len(tabs), "operations": sum(t["nsymop"] for t in tabs),
            "dictionary_keys": len(dic), "tlc_wall_s": round(r.wall, 1),
